@@ -179,6 +179,10 @@ def loader_fields(U, rep, rule='R14.4', prefix=None, label='field:'):
     raise AnalysisError('%s: only %d loader fields compared' % (rule, len(by)))
   for path in sorted(by):
     bad = [m for m, ok in by[path] if not ok]
+    if path.startswith('structure: load_model raises'):
+      rep.fail(rule, label + 'loads', 'the loader fails on a supported model: %s' % path[len('structure: '):], where=f.where(),
+               construct='mock model: %s' % bad[0])
+      continue
     if path.startswith('structure'):
       rep.fail(rule, label + 'structure', 'the loader makes a selection / mask / branch depend on real-valued model data; in the '
                'reference every such decision is a function of the integer and flag fields (joint types, ids, *limited, '
